@@ -66,7 +66,7 @@ def ensure_links():
             pass
         os.symlink(want, link)
     lock = os.path.join(HARNESS, "Cargo.lock")
-    if not os.path.exists(lock):
+    if not os.path.exists(lock) and os.path.exists(os.path.join(want, "Cargo.lock")):
         shutil.copy(os.path.join(want, "Cargo.lock"), lock)
 
 
@@ -161,6 +161,7 @@ def run_argv(run, shard, seed, tier, trace):
     if v in ("asan", "fhex-asan"):
         env["ASAN_OPTIONS"] = "halt_on_error=1:abort_on_error=0:detect_leaks=1:exitcode=98:allocator_may_return_null=1"
         env["ASAN_SYMBOLIZER_PATH"] = shutil.which("llvm-symbolizer-14") or shutil.which("llvm-symbolizer") or ""
+        env.update(run.env)
         return [exe_path(run.engine, v)] + common, env
     return [exe_path(run.engine, v)] + common, env
 
@@ -426,6 +427,14 @@ def check_property(prop, spec, tier, seed, replay=None):
             kind, text = res.detector_reports[0]
             case = res.last_case or "?"
             sig = f"{op_of_case(case)}|{kind}:{normalise_report(text)}"
+            if kind == "asan" and "LeakSanitizer" in text:
+                # reported at process exit; element-payload leaks gate the ownership properties,
+                # crate-side block leaks belong to C16
+                case = "(reported at process exit by LeakSanitizer)"
+                sig = "exit-leak|asan:LeakSanitizer"
+                if prop not in BLOCK_LEAK_PROPS and "vkit::tok::" not in res.stderr_full:
+                    advisory.append({"sig": sig + " [heap block leak: C16 territory]", "case": case, "detail": text})
+                    continue
             if kind == "miri" and "memory leaked" in text:
                 # reported at process exit: the last case marker is not the culprit;
                 # attribute to the allocation's first frame inside the crate under test
